@@ -48,6 +48,8 @@ def parse_dot(path):
             out.setdefault(m.group(1), [])
             if "style = filled" in ln:
                 init = m.group(1)
+    for u in out:
+        out[u].sort()
     if init is None or not last:
         raise V.Inconclusive("generator graph: could not parse the dot dump")
     return init, last, out
